@@ -278,7 +278,14 @@ class SymArr(_np.ndarray):
         raise Unsupported("item() on non-scalar symbolic array")
 
     def flatten(self, order="C"):
-        raise Unsupported("flatten of symbolic array")
+        if order != "C":
+            raise Unsupported(f"flatten(order={order!r}) of symbolic array")
+        if self.ndim == 1:
+            return self.copy()
+        co = corder_of(self.shape)
+        fz = self.frozen()
+        nd = self.ndim
+        return SymArr.fresh((co.N,), lambda idx: fz(tuple(co.dec_expr(d, idx[0]) for d in range(nd))), self.kind)
 
     # -- indexing
     def __getitem__(self, key):
@@ -777,6 +784,8 @@ def sym_array(obj, dtype=None, **kw):
     if isinstance(obj, (list, tuple)) and _has_sym(obj):
         # 1-d list of scalars (possibly symbolic)
         elems = [e.elem() if isinstance(e, SymArr) and e.ndim == 0 else e for e in obj]
+        if elems and all(isinstance(e, SymArr) for e in elems):
+            return sym_stack(list(elems), axis=0)
         if any(isinstance(e, (list, tuple, _np.ndarray)) for e in elems):
             raise Unsupported("nested symbolic array literal")
         k = "real"
@@ -2061,7 +2070,187 @@ def sym_diag_indices(n, ndim=2):
     return (s,) * ndim
 
 
+# ----------------------------------------------------------------------------------------
+# enumerations of index tuples (flatten / MultiIndex.from_product, nonzero / argwhere)
+
+_enum_ids = itertools.count()
+
+
+def _extent_key(extents):
+    return tuple(str(z3.simplify(_zsize(n))) for n in extents)
+
+
+class COrder:
+    """C-order enumeration of the index tuples of a box with the given extents: a bijection between the row
+    numbers 0..N-1 and the index tuples (dec: row -> tuple, enc: tuple -> row), increasing in lexicographic order.
+    Two enumerations over the same extents are the same enumeration (one COrder object per extents list and path).
+    Primitive contract of numpy's flatten() and of pandas' MultiIndex.from_product."""
+
+    def __init__(self, extents):
+        c = ctx()
+        k = next(_enum_ids)
+        self.extents = tuple(extents)
+        nd = len(self.extents)
+        self.nd = nd
+        ez = [_zsize(n) for n in self.extents]
+        sym = [n for n in self.extents if isinstance(n, SymInt)]
+        if not sym:
+            tot = 1
+            for n in self.extents:
+                tot *= int(n)
+            self.N = tot
+        else:
+            self.N = SymInt(c.fresh(f"n_flat{k}", "int"))
+            conc = 1
+            for n in self.extents:
+                if not isinstance(n, SymInt):
+                    conc *= int(n)
+            facts = [self.N.e >= 0]
+            if len(sym) == 1:
+                facts.append(self.N.e == conc * sym[0].e)
+            else:
+                facts.append(z3.Implies(z3.And(*[e >= 1 for e in ez]), self.N.e >= 1))
+                facts.append(z3.Implies(z3.Or(*[e == 0 for e in ez]), self.N.e == 0))
+                for e in ez:
+                    facts.append(z3.Implies(z3.And(*[o >= 1 for o in ez]), self.N.e >= e))
+            c.assume(z3.And(*facts), why="number of index tuples of a box")
+        zN = _zsize(self.N)
+        self.dec = [z3.Function(f"dec{k}_{d}", z3.IntSort(), z3.IntSort()) for d in range(nd)]
+        self.enc = z3.Function(f"enc{k}", *([z3.IntSort()] * nd), z3.IntSort()) if nd else None
+        dec, enc = self.dec, self.enc
+        if nd:
+            def dec_fact(r):
+                inr = z3.And(r >= 0, r < zN)
+                body = [z3.And(dec[d](r) >= 0, dec[d](r) < ez[d]) for d in range(nd)]
+                body.append(enc(*[dec[d](r) for d in range(nd)]) == r)
+                if nd == 1:
+                    body.append(dec[0](r) == r)
+                return z3.Implies(inr, z3.And(*body))
+
+            def enc_fact(*i):
+                inb = z3.And(*[z3.And(i[d] >= 0, i[d] < ez[d]) for d in range(nd)])
+                body = [enc(*i) >= 0, enc(*i) < zN] + [dec[d](enc(*i)) == i[d] for d in range(nd)]
+                if nd == 1:
+                    body.append(enc(*i) == i[0])
+                if not sym:
+                    # concrete extents: the row number is the usual linear combination
+                    stride, lin = 1, 0
+                    for d in range(nd - 1, -1, -1):
+                        lin = lin + i[d] * stride
+                        stride *= int(self.extents[d])
+                    body.append(enc(*i) == lin)
+                return z3.Implies(inb, z3.And(*body))
+
+            for d in range(nd):
+                c.add_trigger(f"dec{k}_{d}", dec_fact)
+            c.add_trigger(f"enc{k}", enc_fact)
+
+    def dec_expr(self, d, r):
+        return self.dec[d](to_int(r))
+
+    def enc_expr(self, idx):
+        if not self.nd:
+            return z3.IntVal(0)
+        return self.enc(*[to_int(i) for i in idx])
+
+    def order_fact(self, r1, r2):
+        """r1 < r2  <=>  dec(r1) <lex dec(r2)   (both rows in range)"""
+        r1, r2 = to_int(r1), to_int(r2)
+        lex = z3.BoolVal(False)
+        for d in range(self.nd - 1, -1, -1):
+            a, b = self.dec[d](r1), self.dec[d](r2)
+            lex = z3.Or(a < b, z3.And(a == b, lex))
+        return (r1 < r2) == lex
+
+
+def corder_of(extents):
+    c = ctx()
+    reg = c.__dict__.setdefault("_corders", {})
+    key = _extent_key(extents)
+    if key not in reg:
+        reg[key] = COrder(extents)
+    return reg[key]
+
+
+class SelOrder:
+    """C-order enumeration of the index tuples of a box that satisfy a predicate (np.nonzero / np.argwhere):
+    rows 0..M-1, sel: row -> tuple, inv: tuple -> row;  every selected tuple occurs exactly once"""
+
+    def __init__(self, extents, pred):
+        c = ctx()
+        k = next(_enum_ids)
+        self.extents = tuple(extents)
+        nd = len(self.extents)
+        if nd == 0:
+            raise Unsupported("nonzero / argwhere of a 0-d array")
+        self.nd = nd
+        ez = [_zsize(n) for n in self.extents]
+        self.M = SymInt(c.fresh(f"n_sel{k}", "int"))
+        c.assume(self.M.e >= 0, why="number of selected entries")
+        zM = self.M.e
+        self.sel = [z3.Function(f"sel{k}_{d}", z3.IntSort(), z3.IntSort()) for d in range(nd)]
+        self.inv = z3.Function(f"selinv{k}", *([z3.IntSort()] * nd), z3.IntSort())
+        sel, inv = self.sel, self.inv
+        self.pred = pred
+
+        def sel_fact(r):
+            t = [sel[d](r) for d in range(nd)]
+            body = [z3.And(t[d] >= 0, t[d] < ez[d]) for d in range(nd)] + [pred(tuple(t)), inv(*t) == r]
+            return z3.Implies(z3.And(r >= 0, r < zM), z3.And(*body))
+
+        def inv_fact(*i):
+            inb = z3.And(*[z3.And(i[d] >= 0, i[d] < ez[d]) for d in range(nd)])
+            body = [inv(*i) >= 0, inv(*i) < zM] + [sel[d](inv(*i)) == i[d] for d in range(nd)]
+            return z3.Implies(z3.And(inb, pred(tuple(i))), z3.And(*body))
+
+        for d in range(nd):
+            c.add_trigger(f"sel{k}_{d}", sel_fact)
+        c.add_trigger(f"selinv{k}", inv_fact)
+        c.__dict__.setdefault("_selorders", []).append(self)
+
+    def sel_expr(self, d, r):
+        return self.sel[d](to_int(r))
+
+    def row_of(self, idx):
+        return self.inv(*[to_int(i) for i in idx])
+
+    def order_fact(self, r1, r2):
+        r1, r2 = to_int(r1), to_int(r2)
+        lex = z3.BoolVal(False)
+        for d in range(self.nd - 1, -1, -1):
+            a, b = self.sel[d](r1), self.sel[d](r2)
+            lex = z3.Or(a < b, z3.And(a == b, lex))
+        return (r1 < r2) == lex
+
+
+def _selection_of(a):
+    a = as_symarr(a)
+    fz = a.frozen()
+    kind = a.kind
+    if kind == "bool":
+        pred = lambda idx: fz(idx)
+    else:
+        pred = lambda idx: fz(idx) != 0
+    return SelOrder(a.shape, pred)
+
+
+def sym_nonzero(a):
+    if not isinstance(a, SymArr):
+        return _np.nonzero(a)
+    so = _selection_of(a)
+    return tuple(SymArr.fresh((so.M,), (lambda d: lambda idx: so.sel_expr(d, idx[0]))(d), "int", origin="nonzero") for d in range(so.nd))
+
+
+def sym_argwhere(a):
+    if not isinstance(a, SymArr):
+        return _np.argwhere(a)
+    so = _selection_of(a)
+    return SymArr.fresh((so.M, so.nd), lambda idx: _select([so.sel_expr(d, idx[0]) for d in range(so.nd)], idx[1]), "int", origin="argwhere")
+
+
 _FUNC_IMPL = {
+    _np.nonzero: sym_nonzero,
+    _np.argwhere: sym_argwhere,
     _np.einsum: sym_einsum,
     _np.tile: sym_tile,
     _np.sum: sym_sum,
@@ -2154,6 +2343,8 @@ class NPShim:
     broadcast_to = staticmethod(sym_broadcast_to)
     where = staticmethod(sym_where)
     stack = staticmethod(sym_stack)
+    nonzero = staticmethod(sym_nonzero)
+    argwhere = staticmethod(sym_argwhere)
     add = staticmethod(lambda a, b: _elementwise2(a, b, lambda x, y: x + y) if _has_sym(a, b) else _np.add(a, b))
     subtract = staticmethod(lambda a, b: _elementwise2(a, b, lambda x, y: x - y) if _has_sym(a, b) else _np.subtract(a, b))
     multiply = staticmethod(lambda a, b: _elementwise2(a, b, lambda x, y: x * y) if _has_sym(a, b) else _np.multiply(a, b))
